@@ -352,11 +352,24 @@ func runC18(c *an.Ctx) {
 				if cc == nil || cc.StaticCallee() == nil || cc.StaticCallee().Name() != "flushWriteHeader" {
 					return
 				}
-				f := an.FactsAt(in)
-				interrupted := false
-				for _, a := range f {
-					if a.Op == "!=" && a.R == "nil" && (strings.Contains(a.L, "ProcessResponseHeaders(") || strings.Contains(a.L, "WriteResponseBody(") || strings.Contains(a.L, "ProcessResponseBody(") || strings.Contains(a.L, "ReadResponseBodyFrom(")) && strings.HasSuffix(a.L, "#0") || a.Op == "!=" && a.R == "nil" && strings.HasSuffix(a.L, "ProcessResponseHeaders(statusCode,i.proto)") {
-						interrupted = true
+				interruptedAt := func(f an.Facts) bool {
+					for _, a := range f {
+						if a.Op == "!=" && a.R == "nil" && (strings.Contains(a.L, "ProcessResponseHeaders(") || strings.Contains(a.L, "WriteResponseBody(") || strings.Contains(a.L, "ProcessResponseBody(") || strings.Contains(a.L, "ReadResponseBodyFrom(")) && (strings.HasSuffix(a.L, "#0") || strings.HasSuffix(a.L, ")")) {
+							return true
+						}
+					}
+					return false
+				}
+				interrupted := interruptedAt(an.FactsAt(in))
+				if !interrupted && fn.Parent() == nil && !token.IsExported(fn.Name()) {
+					// a private helper that answers with the interruption (sendInterruption(it)): interrupted when
+					// every one of its call sites is
+					sites := c.P.CallSites(func(x ssa.Instruction) bool { return an.IsCallTo(x, fn) })
+					interrupted = len(sites) > 0
+					for _, cs := range sites {
+						if !interruptedAt(an.FactsAt(cs.Call)) {
+							interrupted = false
+						}
 					}
 				}
 				if !interrupted {
@@ -377,7 +390,7 @@ func runC18(c *an.Ctx) {
 					"this interruption branch flushes the status without declaring Content-Length: 0 (its siblings do): when phase 3 denies from inside the handler's first Write, that Write continues and the delegate accepts its bytes, so handler output reaches the client of a blocked response")
 			})
 		}
-		c.MinCount("R3", "interruption branches flushing the response status", nInt, 2)
+		c.MinCount("R3", "interruption branches flushing the response status", nInt, 1)
 	}
 	// call sites of writeBufferedResponseBodyToDownstream
 	if wb != nil {
@@ -567,9 +580,12 @@ func runC18(c *an.Ctx) {
 	if sf := c.Fn("R6", "http.obtainStatusCodeFromInterruptionOrDefault"); sf != nil {
 		an.Instrs(sf, func(in ssa.Instruction) {
 			if ifi, ok := in.(*ssa.If); ok {
-				for _, a := range an.CondAtoms(ifi.Cond, true) {
-					if a.L == "it.Action" && a.Op == "==" {
-						handled[strings.Trim(a.R, "\"")] = true
+				// an action is handled when some branch singles it out, whichever way round the test is written
+				for _, truth := range []bool{true, false} {
+					for _, a := range an.CondAtoms(ifi.Cond, truth) {
+						if strings.HasSuffix(a.L, ".Action") && a.Op == "==" {
+							handled[strings.Trim(a.R, "\"")] = true
+						}
 					}
 				}
 			}
